@@ -159,7 +159,7 @@ def _replay(beh):
                     fails.append(("requires_grad", "requires_grad_(True) did not reach floating tensor #%d" % i))
         # ---- the flattened representation has exactly the leaves the specification lists for this term (kinds and dtypes, as a multiset:
         #      floating leaves in the target dtype, index data int64, masks bool)
-        lab = {torch.float32: "f32", torch.float64: "f64", torch.int64: "i64", torch.bool: "bool"}
+        lab = {torch.float32: "f32", torch.float64: "f64", torch.int64: "i64", torch.int32: "i32", torch.bool: "bool"}
         try:
             got = sorted(lab.get(t.dtype, str(t.dtype)) for t in res.representation())
         except RuntimeError:
